@@ -28,6 +28,12 @@ func (s *Store) Put(id packet.ID, future *Future) {
 	defer s.mutex.Unlock()
 
 	// set future
+	// cancel a pending future that is about to be replaced, nothing could
+	// resolve it anymore once it is not reachable through the store
+	if old, ok := s.store[id]; ok && old != nil && old != future {
+		old.Cancel(nil)
+	}
+
 	s.store[id] = future
 }
 
